@@ -54,6 +54,8 @@ pub struct Counters {
     pub pruned: AtomicU64,
     pub pointers: AtomicU64,
     pub histories_with_pointer: AtomicU64,
+    pub high_targets: AtomicU64,
+    pub max_target: AtomicU64,
 }
 
 /// Per-worker counts (no sharing while a shard runs).
@@ -65,6 +67,8 @@ pub struct Tally {
     pub pruned: u64,
     pub pointers: u64,
     pub histories_with_pointer: u64,
+    pub high_targets: u64,
+    pub max_target: u64,
 }
 
 impl Tally {
@@ -75,6 +79,8 @@ impl Tally {
         c.pruned.fetch_add(self.pruned, Ordering::Relaxed);
         c.pointers.fetch_add(self.pointers, Ordering::Relaxed);
         c.histories_with_pointer.fetch_add(self.histories_with_pointer, Ordering::Relaxed);
+        c.high_targets.fetch_add(self.high_targets, Ordering::Relaxed);
+        c.max_target.fetch_max(self.max_target, Ordering::Relaxed);
         *self = Tally::default();
     }
 }
@@ -235,6 +241,8 @@ pub fn step(prop: Prop, cfg: &Config, parent: Option<&Node>, op: Option<&Op>, bu
             viols.extend(vs);
             let np = st.qname + st.owner + st.rdata;
             cnt.pointers += np as u64;
+            cnt.high_targets += st.high_targets as u64;
+            cnt.max_target = cnt.max_target.max(st.max_target as u64);
             if np > 0 {
                 cnt.histories_with_pointer += 1;
             }
@@ -339,7 +347,8 @@ fn dfs(prop: Prop, fam: &Family, cfg: &Config, node: &Node, depth_left: usize, b
 
 /// Explores one family exhaustively. Work is split by the first
 /// `split` operations of the history.
-pub fn explore_family(ctx: &Ctx, prop: Prop, fam: &Family, totals: &Counters, found: &Found) {
+/// Returns the number of shards skipped because the wall-clock cap was hit.
+pub fn explore_family(ctx: &Ctx, prop: Prop, fam: &Family, totals: &Counters, found: &Found, wall_cap_s: f64) -> (usize, usize) {
     let m = fam.alphabet.len();
     let split = if fam.depth >= 3 && m * m <= 4096 { 2 } else { 1 }.min(fam.depth);
     // Shards: (config index, first `split` operation indices).
@@ -353,7 +362,12 @@ pub fn explore_family(ctx: &Ctx, prop: Prop, fam: &Family, totals: &Counters, fo
     // Rotate the visiting order with the seed (coverage is unaffected).
     let rot = (ctx.seed as usize) % shards.len().max(1);
     shards.rotate_left(rot);
+    let skipped = std::sync::atomic::AtomicUsize::new(0);
     ctx.par_for_each(&shards, |l, (ci, first)| {
+        if ctx.elapsed_s() > wall_cap_s {
+            skipped.fetch_add(1, Ordering::Relaxed);
+            return;
+        }
         thread_local! {
             static BUFS: std::cell::RefCell<Bufs> = std::cell::RefCell::new(Bufs::new());
         }
@@ -366,6 +380,7 @@ pub fn explore_family(ctx: &Ctx, prop: Prop, fam: &Family, totals: &Counters, fo
             tally.merge_into(totals);
         });
     });
+    (skipped.load(Ordering::Relaxed), shards.len())
 }
 
 #[allow(clippy::too_many_arguments)]
